@@ -604,8 +604,8 @@ impl Part for CancelStorm {
 pub fn run(tier: Tier) -> i32 {
     let mut ctx = Ctx::new("C18", tier);
     ctx.assume("tokio's Semaphore and dashmap are trusted; the harness owns every poll of the request futures (no-op waker), so interleavings are generated, not sampled; a tokio context is present and tasks the implementation may spawn are run to quiescence after every step");
-    ctx.run_part(Histories, tier.pick(40_000, 1_500_000));
-    ctx.run_part(ManyPeers, tier.pick(300, 6_000));
-    ctx.run_part(CancelStorm, tier.pick(400, 8_000));
+    ctx.run_part(Histories, tier.pick(40_000, 20_000_000));
+    ctx.run_part(ManyPeers, tier.pick(300, 60_000));
+    ctx.run_part(CancelStorm, tier.pick(400, 60_000));
     ctx.finish()
 }
